@@ -12,7 +12,8 @@ EXPLANATION = ('within_tolerance, EqualityComparer, MathMixin.compare_evaluation
                'reals). z3 decides on every path: result is True exactly when |expected - student| <= t (resp. <= p * |expected| with the code\'s '
                'own double p; Frobenius norm for arrays), the grade is the answer\'s credit exactly when #failing samples <= failable_evals '
                '(single-sample graders tolerate none) and 0 otherwise; algebraically identical rewritings always earn full credit and formulas '
-               'off by more than the tolerance on the whole sampling box never earn any.')
+               'off by more than the tolerance on the whole sampling box never earn any.'
+               ' Percentage tolerances are read by the oracle itself (p times one hundredth), including percentages with several decimals.')
 ASSUMPTIONS = ['exact-real arithmetic: the verdict is decided AT the tolerance boundary (no guard band needed); IEEE rounding outside the claim',
                'samples are arbitrary reals in the declared intervals; infinite values are concrete +-inf',
                'complex samples are not modelled (SymComplex not built): complex answers are outside this check']
